@@ -44,9 +44,11 @@ type caseSpec struct {
 var execKinds = []string{"fresh", "fresh", "fromPool", "dupChain", "badSig", "poolBadSig", "poolSwapPubkey", "txHeightIn", "group"}
 
 // ... and kinds the executor itself refuses (inserted into the body after the state root was computed)
-var insertKinds = []string{"dupSame", "expiredHeight", "expiredTime", "wrongChain", "lowFee", "txHeightOut"}
+var insertKinds = []string{"dupSame", "expiredHeight", "expiredTime", "wrongChain", "lowFee", "txHeightOut", "groupExpiredMember"}
 
 const trunkLen = 11
+
+var craftedHeads int
 
 var (
 	builder *chainfix.Builder
@@ -120,7 +122,12 @@ func (w *world) freshTx(to int) *types.Transaction {
 }
 
 // group builds a 2..3 member transaction group the way wallets do (types.CreateTxGroup, every member signed).
-func (w *world) group(n int, to int) []*types.Transaction {
+func (w *world) group(n int, to int) []*types.Transaction { return w.groupWith(n, to, -1, 0, false) }
+
+// groupWith: member `expired` (if >= 0) carries the given already-passed Expire; with craft the head's nonce is searched
+// (bounded) until the group's head id -- the 32 bytes every member carries in its Header field -- happens to be a
+// well-formed protobuf encoding, a class of ids that code decoding Header bytes may treat specially.
+func (w *world) groupWith(n int, to int, expired int, expire int64, craft bool) []*types.Transaction {
 	keys := chainfix.Keys()
 	var txs []*types.Transaction
 	var signers []int
@@ -129,10 +136,26 @@ func (w *world) group(n int, to int) []*types.Transaction {
 		k := w.sender()
 		tx := chainfix.TransferTx(w.cfg, keys[k], chainfix.Addr(keys[(to+i)%len(keys)]), 1e8, nonce)
 		tx.Signature = nil
+		if i == expired {
+			tx.Expire = expire
+		}
 		txs = append(txs, tx)
 		signers = append(signers, k)
 	}
 	g, err := types.CreateTxGroup(txs, w.cfg.GetMinTxFeeRate())
+	for try := 0; craft && err == nil && try < 6000; try++ {
+		var probe types.Transactions
+		if types.Decode(g.Txs[0].Hash(), &probe) == nil {
+			craftedHeads++
+			break
+		}
+		nonce++
+		txs[0].Nonce = nonce
+		for _, tx := range txs {
+			tx.Header, tx.Next, tx.GroupCount = nil, nil, 0
+		}
+		g, err = types.CreateTxGroup(txs, w.cfg.GetMinTxFeeRate())
+	}
 	if err != nil {
 		lib.Inconclusive("CreateTxGroup: %v", err)
 	}
@@ -292,6 +315,15 @@ func (w *world) makeBlock(parent *types.Block, specs []txSpec, bits uint32) (*ty
 			tx.Fee = int64(s.Ref % 1000)
 			tx.Sign(types.SECP256K1, keys[1])
 			single(tx, true)
+			invalid = true
+		case "groupExpiredMember":
+			// a well-formed, fully signed group one of whose later members is already expired at this height
+			n := 2 + s.Ref%2
+			exp := height - int64(s.Ref%2) // height-type expiry, expire <= height
+			if exp <= 0 {
+				exp = 1
+			}
+			units = append(units, unit{w.groupWith(n, s.To, 1+s.Ref%(n-1), exp, s.Ref%3 != 0), true})
 			invalid = true
 		case "txHeightOut":
 			tx := w.freshTx(s.To)
@@ -588,6 +620,8 @@ func TestPropChainValidity(t *testing.T) {
 		c := genCase(t)
 		lib.Eval()
 		o := runCase(t, "TestPropChainValidity", c)
+		lib.ClassN("group_head_id_decodes_as_protobuf", craftedHeads)
+		craftedHeads = 0
 		if o.adversarial > 0 {
 			lib.Class("adversarial_block")
 		}
@@ -631,7 +665,7 @@ func genWinCase(t *rapid.T) winCase {
 		var specs []txSpec
 		k := rapid.IntRange(1, 3).Draw(t, "ntx")
 		for j := 0; j < k; j++ {
-			kind := rapid.SampledFrom([]string{"fresh", "txHeightIn", "txHeightIn", "replayTxHeight", "replayTxHeight", "txHeightOut", "dupChain", "group", "dupSame"}).Draw(t, "kind")
+			kind := rapid.SampledFrom([]string{"fresh", "txHeightIn", "txHeightIn", "replayTxHeight", "replayTxHeight", "txHeightOut", "dupChain", "group", "dupSame", "groupExpiredMember"}).Draw(t, "kind")
 			specs = append(specs, txSpec{Kind: kind, Ref: rapid.IntRange(0, 999).Draw(t, "ref"), To: rapid.IntRange(0, 5).Draw(t, "to")})
 		}
 		c.Blocks = append(c.Blocks, specs)
@@ -720,6 +754,8 @@ func TestPropTxHeightWindow(t *testing.T) {
 		c := genWinCase(t)
 		lib.Eval()
 		in, edge, after, adv, rej := runWinCase(t, "TestPropTxHeightWindow", c)
+		lib.ClassN("group_head_id_decodes_as_protobuf", craftedHeads)
+		craftedHeads = 0
 		lib.ClassN("replay_inside_window", in)
 		lib.ClassN("replay_at_last_height_of_window", edge)
 		lib.ClassN("replay_after_window", after)
